@@ -125,12 +125,10 @@ def expand(ref, path):
 
 
 def norm_label(c, outputs):
-    """pandas artefacts of mixing plain keys and tuples in one MultiIndex: a plain key is spelled out character by
-    character and shorter tuples are padded with NaN.  Both still name the requested key, so they are normalised."""
+    """pandas pads the shorter tuples of one MultiIndex with NaN; the padding is removed.  (A plain key that is spelled out
+    character by character - ('k', 'e', 'y', '0') - does NOT name the requested key and is not normalised.)"""
     if isinstance(c, tuple):
         c = tuple(x for x in c if not (isinstance(x, float) and x != x))
-        if isinstance(outputs, dict) and all(isinstance(x, str) and len(x) == 1 for x in c) and ''.join(c) in outputs:
-            return ''.join(c)
         if len(c) == 1:
             return c[0]
     return c
